@@ -27,6 +27,10 @@ import vx  # noqa: E402
 
 TAG_RE = re.compile(r'//@ ((?:C\d+)(?:\+C\d+)*):([A-Za-z0-9_]+)')
 WORK = os.environ.get('VERIF_WORK', '/var/tmp/poster-verif')
+try:
+    VERUS_ID = subprocess.run(['verus', '--version'], capture_output=True, text=True).stdout.strip() + ' threads=12 multiple-errors=20'
+except OSError:
+    VERUS_ID = 'verus?'
 
 
 def unit_templates():
@@ -198,40 +202,67 @@ def trusted_scan(text):
     return items
 
 
-def run_unit(unit_name, repo, outdir, canary=False):
-    u = assembled(unit_name, repo)
-    text = u.text()
-    path = os.path.join(outdir, unit_name + ('_canary' if canary else '') + '.rs')
-    if canary:
-        # vacuity guard: `assert(false)` is planted as the first statement of every contracted function
-        # extracted from /repo; each must FAIL.  A canary that verifies means a contradictory precondition.
-        lines = text.split('\n')
-        names = []
-        for (a, b, nm, qn, rel, sl) in u.fns:
-            has_contract = any(u.origin[k][0] == 'tpl' for k in range(a - 1, min(b, len(lines))))
-            if not has_contract:
-                continue
-            # first line of the body: the first `{`-only line that comes from the source after the signature
-            for k in range(a - 1, min(b, len(lines))):
-                if lines[k].strip() == '{' and u.origin[k][0] == 'src':
-                    lines[k] = '{ assert(false); //@ CANARY:%s' % nm
-                    names.append(nm)
-                    break
-        text = '\n'.join(lines)
-        open(path, 'w').write(text)
-        rc, diags, summary, wall, raw = vx.run_verus(path)
-        failed = set()
-        for d in diags:
-            if d['level'] == 'error':
-                for sp in d['spans']:
-                    for t in sp.get('text', []):
-                        m = re.search(r'CANARY:(\S+)', t['text'])
-                        if m:
-                            failed.add(m.group(1))
-        return names, failed, wall
+CANARY_RX = re.compile(r'CANARY:(\S+)')
+
+
+def is_canary(d):
+    """the diagnostic is the REQUIRED failure of a planted vacuity canary"""
+    for sp in d.get('spans', []):
+        for t in sp.get('text', []):
+            if CANARY_RX.search(t['text']) and 'assertion failed' in d['message']:
+                return CANARY_RX.search(t['text']).group(1)
+    return None
+
+
+def cached_verus(path, text, extra=()):
+    """Verus on `text` (written to `path`); results are memoised by the exact verifier input + options, so that the
+    checks of several properties sharing a unit do not repeat an identical verifier run."""
+    key = hashlib.sha256((VERUS_ID + '\0' + ' '.join(extra) + '\0' + text).encode()).hexdigest()
+    cdir = os.path.join(WORK, 'cache')
+    os.makedirs(cdir, exist_ok=True)
+    cp = os.path.join(cdir, key + '.json')
     open(path, 'w').write(text)
-    rc, diags, summary, wall, raw = vx.run_verus(path)
-    return u, rc, diags, summary, wall, raw, path
+    if os.environ.get('VX_NOCACHE', '0') != '1' and os.path.exists(cp):
+        try:
+            rc, diags, summary, wall, raw = json.load(open(cp))
+            return rc, diags, summary, wall, raw, True
+        except ValueError:
+            pass
+    rc, diags, summary, wall, raw = vx.run_verus(path, extra=extra)
+    tmp = cp + '.%d.tmp' % os.getpid()
+    json.dump([rc, diags, summary, wall, raw[-20000:]], open(tmp, 'w'))
+    os.replace(tmp, cp)
+    return rc, diags, summary, wall, raw, False
+
+
+def run_unit(unit_name, repo, outdir, extra=()):
+    """assemble the unit from `repo`, plant the vacuity canaries, run Verus.
+    Vacuity guard: `if vx_canary_flag() { assert(false); }` (vx_canary_flag: an uninterpreted bool) is planted as the
+    first statement of every contracted function extracted from the repository; that assertion must FAIL (it
+    can only verify if the function's precondition is contradictory).  The branch with the flag false is the
+    unchanged function, so everything else is verified as before."""
+    u = assembled(unit_name, repo)
+    lines = u.text().split('\n')
+    names = []
+    for idx, (a, b, nm, qn, rel, sl) in enumerate(u.fns):
+        has_contract = any(u.origin[k][0] == 'tpl' for k in range(a - 1, min(b, len(lines))))
+        if not has_contract:
+            continue
+        # first line of the body: the first `{`-only line that comes from the source after the signature
+        for k in range(a - 1, min(b, len(lines))):
+            if lines[k].strip() == '{' and u.origin[k][0] == 'src':
+                cid = '%d_%s' % (idx, nm)
+                lines[k] = '{ proof { if vx_canary_flag() { assert(false); } } //@ CANARY:%s' % cid
+                names.append(cid)
+                break
+    text = '\n'.join(lines)
+    path = os.path.join(outdir, unit_name + '.rs')
+    rc, diags, summary, wall, raw, cached = cached_verus(path, text, extra)
+    return u, rc, diags, summary, wall, raw, path, names, cached
+
+
+def real_errors(diags):
+    return [d for d in diags if d['level'] == 'error' and not d['message'].startswith('aborting due to') and not is_canary(d)]
 
 
 def main():
@@ -278,38 +309,34 @@ def main():
         try:
             main_res = run_unit(un, a.repo, outdir)
         except (AnchorLost, Unsupported, LookupError, ValueError) as e:
-            return un, e, None, []
-        try:
-            can = run_unit(un, a.repo, outdir, canary=True)
-        except (AnchorLost, Unsupported) as e:
-            can = e
+            return un, e, []
         extra = []
         for sd in seeds[1:]:
-            rc2, diags2, summary2, wall2, raw2 = vx.run_verus(main_res[6], extra=('--smt-option', 'smt.random_seed=%d' % sd))
-            vr2 = (summary2 or {}).get('verification-results', {})
-            extra.append((sd, vr2.get('verified'), vr2.get('errors'), round(wall2, 1)))
-        return un, main_res, can, extra
+            r2 = run_unit(un, a.repo, outdir, extra=('--smt-option', 'smt.random_seed=%d' % sd))
+            extra.append((sd, len(real_errors(r2[2])), round(r2[4], 1), r2[8]))
+        return un, main_res, extra
 
     with ThreadPoolExecutor(max_workers=4) as ex:
         results = list(ex.map(job, units))
     stability = []
-    for un, main_res, can_res, extra in results:
+    for un, main_res, extra in results:
         if isinstance(main_res, Exception):
             undecided.append('%s: %s: %s' % (un, type(main_res).__name__, main_res))
             continue
-        u, rc, diags, summary, wall, raw, path = main_res
-        for (sd, v2, e2, w2) in extra:
-            stability.append({'unit': un, 'smt.random_seed': sd, 'verified': v2, 'errors': e2, 'wall_s': w2})
-            vr0 = (summary or {}).get('verification-results', {})
-            if vr0.get('errors', 0) == 0 and (e2 or 0) > 0:
-                undecided.append('%s: proof is unstable: verifies with the default solver seed, %s error(s) with smt.random_seed=%d' % (un, e2, sd))
-        errs = [d for d in diags if d['level'] == 'error' and not d['message'].startswith('aborting due to')]
+        u, rc, diags, summary, wall, raw, path, cnames, cached = main_res
+        errs = real_errors(diags)
         vr = (summary or {}).get('verification-results', {})
         if summary is None or vr.get('encountered-vir-error') or (errs and vr.get('verified', 0) == 0 and vr.get('errors', 0) == 0):
             # compilation / VIR error: the unit could not be read by the verifier -> undecided, never an alarm
             undecided.append('%s: verifier could not process the unit: %s' % (un, '; '.join(d['message'] for d in errs[:3]) or raw[-400:]))
             continue
-        verified_fns += vr.get('verified', 0)
+        for (sd, e2, w2, c2) in extra:
+            stability.append({'unit': un, 'smt.random_seed': sd, 'errors': e2, 'wall_s': w2, 'cached': c2})
+            if not errs and e2 > 0:
+                undecided.append('%s: proof is unstable: verifies with the default solver seed, %s error(s) with smt.random_seed=%d' % (un, e2, sd))
+        # functions Verus reports as verified, plus the contracted ones whose only "error" is the required canary failure
+        canary_hit = set(c for c in (is_canary(d) for d in diags if d['level'] == 'error') if c)
+        verified_fns += vr.get('verified', 0) + (len(canary_hit) if not errs else 0)
         for k, v in u.rw.counts.items():
             rewrites[k] = rewrites.get(k, 0) + v
         for t in trusted_scan(u.text()):
@@ -328,18 +355,15 @@ def main():
                 continue
             failures.append((un, name, props, site, kind, d.get('rendered') or d['message']))
         times = (summary or {}).get('times-ms', {})
-        unit_reports.append({'unit': un, 'verus_wall_s': round(wall, 2), 'verified_fns': vr.get('verified'), 'errors': vr.get('errors'),
-                             'smt_ms': (times.get('smt') or {}).get('total'), 'file': path})
+        unit_reports.append({'unit': un, 'verus_wall_s': round(wall, 2), 'result_reused_from_identical_verifier_input': cached,
+                             'verus_verified': vr.get('verified'), 'verus_errors_incl_required_canary_failures': vr.get('errors'),
+                             'errors_other_than_canaries': len(errs), 'smt_ms': (times.get('smt') or {}).get('total'), 'file': path})
         # vacuity guard
-        if isinstance(can_res, Exception):
-            undecided.append('%s canary: %s' % (un, can_res))
-        else:
-            names, failed, cw = can_res
-            canary_total += len(names)
-            canary_failed += len([n for n in names if n in failed])
-            for n in names:
-                if n not in failed:
-                    undecided.append('%s: vacuity canary for %s did not fail (contradictory precondition?)' % (un, n))
+        canary_total += len(cnames)
+        canary_failed += len([n for n in cnames if n in canary_hit])
+        for n in cnames:
+            if n not in canary_hit:
+                undecided.append('%s: vacuity canary for %s did not fail (contradictory precondition?)' % (un, n))
 
     mine = [f for f in failures if pid in f[2]]
     violations, knowns = [], []
